@@ -229,6 +229,8 @@ impl ReadCursor {
         loop {
             unsafe {
                 let first_ptr = self.readers.load(CONSUME);
+                #[cfg(multiqueue2_verif)]
+                crate::verif_hooks::touch(first_ptr as usize, "get_max_diff");
                 let rg = &*first_ptr;
                 let rval = rg.get_max_diff(cur_writer);
                 // This check ensures that the pointer hasn't changed
@@ -257,6 +259,8 @@ impl ReadCursor {
         let mut current_ptr = self.readers.load(CONSUME);
         loop {
             unsafe {
+                #[cfg(multiqueue2_verif)]
+                crate::verif_hooks::touch(current_ptr as usize, "add_stream");
                 let current_group = &*current_ptr;
                 let raw = (*reader.pos).pos_data.load_raw(Ordering::Relaxed);
                 let wrap = (*reader.pos).pos_data.wrap_at();
@@ -290,6 +294,8 @@ impl ReadCursor {
         let mut current_group = self.readers.load(CONSUME);
         loop {
             unsafe {
+                #[cfg(multiqueue2_verif)]
+                crate::verif_hooks::touch(current_group as usize, "remove_reader");
                 let new_group = (*current_group).remove_reader(reader.pos);
                 match self.readers.compare_exchange(
                     current_group,
